@@ -35,13 +35,17 @@ THEOREMS = [
     "Typedpy.C07.mapper_round_trip_region",
     "Typedpy.C07.region_example",
     "Typedpy.C07.region_all_dict_example",
+    "Typedpy.C07.region_nested_entry_example",
+    "Typedpy.C07.mro_collection_example",
     "Typedpy.C07.camel_idempotent_ascii",
     "Typedpy.C07.mapper_round_trip_region_ascii",
     "Typedpy.C07.mapper_round_trip_K",
     "Typedpy.C07.mapper_round_trip_region_K",
-    "Typedpy.C07.keep_undefined_leak_counterexample",
-    "Typedpy.C07.inherited_closed_counterexample",
+    "Typedpy.C07.keep_undefined_leak_fixed",
+    "Typedpy.C07.inherited_closed_fixed",
     "Typedpy.C07.closed_round_trip_example",
+    "Typedpy.C07.closed_tree_round_trip",
+    "Typedpy.C07.deserializer_default_keeps_nothing",
     "Typedpy.C07.cache_transparent_nested",
     "Typedpy.C07.history_transparent_nested",
     "Typedpy.C07.cache_nested_example",
@@ -56,24 +60,34 @@ RULE = ("class hierarchies (1-3 levels of single inheritance, fresh classes per 
         "with a non-field key) to Serializer and Deserializer; plus the identity-keyed document through the "
         "Deserializer (fallback / strict behaviour); 15% of the cases deserialize through deserialize_structure(..., "
         "keep_undefined=False); a stream of class trees in which some classes set _additional_properties / "
-        "_additionalProperties = False (on the class or on a base level, outer and/or nested); 40% of the cases carry a HISTORY of 1-3 earlier calls in the same "
+        "_additionalProperties = False (on the class or on a base level, outer and/or nested) — since round 2 compared "
+        "with the Lean model too (undefined keys kept / refused); a stream with explicit keep_undefined=True / False to "
+        "Deserializer.deserialize; a stream of classes that also define _deserialization_mapper (a copy of the "
+        "serialization mapper, or a different one: then compared with the model only); a stream of classes with SEVERAL "
+        "BASES (3-5 class statements, diamonds, each with own fields and mapper attribute; the Lean model computes the "
+        "C3 linearisation and collects the attributes along it); an ORACLE-ONLY stream of classes holding structures as "
+        "Map values (Map[String, V], Array[Map[String, V]], V with a nested class, safe mappers only: specified document "
+        "and round trip on the real code); 40% of the cases carry a HISTORY of 1-3 earlier calls in the same "
         "process on the same class objects (same class with the other / same camel flag, same / other override, "
         "a nested class serialized on its own first), plus a directed stream of [camel, plain, camel] and [plain, "
         "camel] histories per class (process-wide cache aggregated_mapper_by_class); every call of a history is "
-        "compared with the model (which threads the cache) and judged by the oracle. Non-trivial = some mapper, camel flag or explicit mapper "
-        "present; distinct by sha256 of the canonical case line")
+        "compared with the model (which threads the cache, nested-class entries included: every entry the real code "
+        "files under a key the model files too must hold the model's aggregate) and judged by the oracle. Non-trivial = "
+        "some mapper, camel flag or explicit mapper present; distinct by sha256 of the canonical case line")
 ASSUMPTIONS = [
-    "rename-only mappers: no FunctionCall / Constant values, no Map-nested structures, no _deserialization_mapper, single inheritance",
-    "scalar fields are Integer fields; Set[...] fields are compared order-insensitively; default class options (additional properties allowed, no compact form)",
+    "rename-only mappers: no FunctionCall / Constant values; structures stored as Map values are outside the Lean model (oracle-only stream)",
+    "scalar fields are Integer fields; Set[...] fields are compared order-insensitively; no compact form",
     "PYTHONHASHSEED=0 (the order of instance attributes, which decides the winner of a key collision, comes from the constructor signature)",
-    "entry points: Deserializer(cls, ...).deserialize(doc) with its default keep_undefined, and deserialize_structure(..., keep_undefined=False); deserialize_structure's default keep_undefined=True deliberately keeps every key that is not a field name, mapped keys included (pinned by typedpy's test_custom_mapper_keeps_undefined_attributes), so it is not an entry point of the round-trip claim",
-    "undefined-key handling (_additional_properties=False, keep_undefined) is not in the Lean model: for class trees containing a closed class the deserialization half is judged by the oracle only",
+    "entry points: Deserializer(cls, ...).deserialize(doc) with its default keep_undefined or an explicit one, and deserialize_structure(..., keep_undefined=False); an explicit keep_undefined=True (and deserialize_structure's default) deliberately keeps every key that is not a field name, mapped keys included (pinned by typedpy's test_custom_mapper_keeps_undefined_attributes), so it is compared with the model but is not an entry point of the round-trip claim",
+    "a _deserialization_mapper that differs from the serialization mapper asks for different keys by design: compared with the model, never judged for round trip",
+    "camel_case_convert switches keep_undefined off for every class that does not set _additional_properties = True explicitly (such classes are not generated)",
+    "several bases: field order and required set are read from the real class (the class-definition properties C12/C14 own that part); the mapper collection along the MRO is modelled",
     "round trip demanded only where: no populated field is dropped (an instance with a populated DoNotSerialize field is never judged for round trip), populated keys distinct and not equal to an absent field's key, no dotted key — at every level",
 ]
 
 
 def cases(rng, tier):
-    return S.gen_cases(rng, tier, 2000 if tier == "quick" else 36000)
+    return S.gen_cases(rng, tier, 2000 if tier == "quick" else 26000)
 
 
 def search_cases(rng, tier):
@@ -170,6 +184,11 @@ def judge_call(cd, case, impl, model, hist):
                 key = "roundtrip:unexplained"
                 if hyp.get("region") and hyp.get("domE"):
                     key = "roundtrip:inside-the-proved-region"
+                # the former findings fixed in /repo 0225533 / 005d815 keep their keys if they return
+                if S.closed(cd) and r.get("extras"):
+                    key = "keep-undefined-leak:Deserializer-closed-outer"
+                elif S.closed(cd) and "err" in r and "non-field" in r.get("msg", ""):
+                    key = "inherited-closed-class-rejects-mapped-key:deserialize_structure_internal"
             fails.append((key, "deserialize(serialize(x)) != x: document " + json.dumps(real_doc)[:200] + " gave "
                           + json.dumps(r)[:300] + " for instance " + json.dumps(case["kw"])[:200]
                           + " mappers " + json.dumps([lv["mapper"] for lv in cd["levels"]])[:300] + hist))
